@@ -2055,8 +2055,11 @@ def check_shared_args(ctx, fname, seed, ops, report=True):
             fail(f"coupled:{fname}:shared-args:original-follows-twin:{k}", f"{fname}: models A and B were constructed from the "
                  f"same argument tensors; after a check-point was loaded into B and B was trained, A's {k} moved by {err:.3e} "
                  f"although nothing was done to A", observable=k, err=err)
-    # (3) B is what its own state says
+    # (3) B is what its own state says (thorough tier; in the quick tier the main phase's state_dict mechanism and
+    # divergence phase cover the correctness of a loaded-and-trained model)
     try:
+        if ctx.quick and report:
+            raise StopIteration
         ref = _reference(fname, seed, "0p", B)       # B's constructor arguments (variant 0), other parameter values
         obs_b, err_b = observe(B)
         obs_f, err_f = observe(ref)
@@ -2065,6 +2068,8 @@ def check_shared_args(ctx, fname, seed, ops, report=True):
                 fail(f"divergence:{fname}:shared-args:{k}", f"{fname}: model B (built from the same argument tensors as A, then "
                      f"loaded and trained) differs in {k} by {err:.3e} from an independent model carrying B's state",
                      observable=k, err=err)
+    except StopIteration:
+        pass
     except Exception as e:
         if not _numerical(e):
             fail(f"divergence:{fname}:shared-args:error", f"{fname}: building the reference of B raised {type(e).__name__}: {e}")
